@@ -699,6 +699,9 @@ def property_battery(tn, rng=None, settings=True, ranges='sample'):
     r = strided_battery(tn, rng, exact, bad, ranges)
     if r:
         return r
+    r = inplace_update_battery(tn, rng, base)
+    if r:
+        return r
     if settings:
         cap = max_bond_cap(tn)
         for name, kw in noop_settings(rng, tn, cap):
@@ -718,6 +721,50 @@ def property_battery(tn, rng=None, settings=True, ranges='sample'):
         r = strided_battery(tn, rng, exact, bad, 'sample', kw_name=name, **kw)
         if r:
             return r
+    return None
+
+
+def inplace_update_battery(tn, rng, base):
+    """HISTORY: the caller keeps its network and UPDATES TENSORS IN PLACE between evaluations (a sweep over parameters
+    re-using the arrays): after every entry point - contract both ways, transpose + contract - has been evaluated once on
+    these very objects, one or two tensors (interior ones first) get an entry changed in place; every entry point must
+    then give the exact value of the UPDATED network.  Integer networks only (exact comparison); restored afterwards."""
+    from qecsim.tensortools import mps2d
+    sites = [(i, j) for i in range(tn.shape[0]) for j in range(tn.shape[1])
+             if tn[i, j] is not None and isinstance(tn[i, j], np.ndarray) and tn[i, j].dtype.kind in 'iO' and tn[i, j].size]
+    if not sites:
+        return None
+    sites.sort(key=lambda ij: -tn[ij].size)
+    chosen = sites[:1] + ([rng.choice(sites)] if len(sites) > 1 else [])
+    saved = []
+    try:
+        for ij in chosen:
+            t = tn[ij]
+            idx = tuple(rng.randrange(d) for d in t.shape)
+            saved.append((ij, idx, t[idx]))
+            t[idx] = t[idx] + rng.choice([1, -1, 2])
+        exact2 = exact_value(tn)
+        want2 = 'ok s ' + str(round_like_impl(exact2))
+        calls = [('contract(tn)', lambda: impl_contract(tn)), ('contract(tn, step=-1)', lambda: impl_contract(tn, step=-1))]
+        if not any(t is None for t in tn.flatten()):
+            calls.append(('contract(transpose(tn))', lambda: impl_contract(mps2d.transpose(tn))))
+        for name, f in calls:
+            try:
+                got = f()
+            except Exception as ex:   # noqa: BLE001
+                got = type(ex).__name__
+            if got != want2:
+                sh, st = wire_net(tn)
+                d = dict(base)
+                d.update({'what': 'after an in-place update of the caller\'s tensors (same objects, every entry point already '
+                                  'evaluated once before the update) the contraction differs from the exact value of the '
+                                  'updated network', 'call': name, 'got': got, 'expected': want2,
+                          'updated_sites': [list(ij) for ij in chosen], 'net_sites_after_update': st,
+                          'exact_value_after_update': str(exact2)})
+                return d
+    finally:
+        for ij, idx, v in reversed(saved):
+            tn[ij][idx] = v
     return None
 
 
